@@ -152,7 +152,64 @@ def check_template(w, s, cpu, directive, unit, t, span, is_reg):
     return None
 
 
-def templates_of(cpu):
+def rendering_texts(w, cpu, unit, align):
+    """instruction texts the disassembler produces over all leading 16-bit patterns (zero tail, deep bytes
+    for byte oriented CPUs) and the assembler accepts: every instruction form the decoder knows, also for the CPUs
+    without a comparison file"""
+    try:
+        r = w.call({"cmd": "c07scan", "cpu": progs.CPU_FILES.get(cpu, cpu), "lo": "0", "hi": "65535", "step": "1", "tails": "1",
+                    "stails": "0", "addr": "256", "emit": "2", "deep": "1" if (unit == 1 and align == 1) else "0"})
+    except (WorkerCrash, WorkerTimeout):
+        return []
+    return [t for t in r.get("texts", b"").decode("latin-1").split("\n") if t.strip()]
+
+
+def templates_of(cpu, extra_texts=None, extra_limit=150):
+    seen = set()
+    templates = []
+    regseen = set()
+    universe = [(t, False) for t in (c02.universe(cpu) if cpu in progs.CPU_FILES else [])]
+    extras = []
+    for t in extra_texts or []:
+        t = c07.strip_annotation(t) if hasattr(c07, "strip_annotation") else t
+        extras.append((t, True))
+    for t, from_rendering in universe + extras:
+        if from_rendering:
+            # one template per (mnemonic, operand shape with registers and numbers abstracted)
+            rk = re.sub(r"[A-Za-z$%]+[0-9]+", "R", c07.NUM.sub("N", t))
+            if rk in regseen or len(regseen) >= extra_limit:
+                continue
+            regseen.add(rk)
+            for m in c02.NUM.finditer(t):
+                span = m.span(1) if m.group(1) else m.span(2)
+                k = shape_key(t, span)
+                if k not in seen:
+                    seen.add(k)
+                    templates.append((t, span, False, k))
+            continue
+        for m in c02.NUM.finditer(t):
+            span = m.span(1) if m.group(1) else m.span(2)
+            # a unary minus in front of the literal belongs to the operand value
+            j = span[0]
+            while j > 0 and t[j - 1] == " ":
+                j -= 1
+            if j > 0 and t[j - 1] == "-" and (j == 1 or t[j - 2] in " ,#(=[:+*"):
+                span = (j - 1, span[1])
+            k = shape_key(t, span)
+            if k not in seen:
+                seen.add(k)
+                templates.append((t, span, False, k))
+        for m in REGTOK.finditer(t):
+            if re.search(r"[{}]|\.\.|[A-Za-z][0-9]+\s*[-/]\s*[A-Za-z]+[0-9]", t):
+                continue                             # register lists/ranges are sets: d5/d5 == d5
+            k = "reg:" + shape_key(t, m.span(2))
+            if k not in seen:
+                seen.add(k)
+                templates.append((t, m.span(2), True, k))
+    return templates
+
+
+def _old_templates_of(cpu):
     seen = set()
     templates = []
     for t in c02.universe(cpu):
@@ -185,21 +242,34 @@ def run(tier, seed, shard, nshards):
     survey = os.environ.get("NV_SURVEY") == "1"
     rnd = random.Random(shard_seed(seed, shard, "c06"))
     try:
-        units = {c["name"]: c["unit"] for c in w.cpus()}
-        cpus = [c for i, c in enumerate(c02.CPUS) if i % nshards == shard]
+        info = {c["name"]: c for c in w.cpus()}
+        units = {n: c["unit"] for n, c in info.items()}
+        # every CPU: the ones with a comparison file by their file name, the others by their directive name
+        rev = {v: k for k, v in progs.CPU_FILES.items()}
+        allc = list(c02.CPUS) + sorted(n for n in info if n not in progs.CPU_FILES.values() and n not in c02.CPUS
+                                       and rev.get(n) is None and n not in ("ps2_ee_vu0", "ps2_ee_vu1"))
+        cpus = [c for i, c in enumerate(allc) if i % nshards == shard]
         for cpu in cpus:
             directive = progs.CPU_FILES.get(cpu, cpu)
             unit = units.get(directive, 1)
-            templates = templates_of(cpu)
-            if tier == "quick" and len(templates) > 30:
-                # one-operand forms first (branches, jumps, calls, pushes: the hole is the whole operand list), then a
-                # deterministic spread over the rest and a seeded extra sample
-                single = [x for x in templates if not x[2] and "," not in x[0]]
-                single = single[::max(1, len(single) // 12)][:12]
-                rest = [x for x in templates if x not in single]
-                base = rest[::max(1, len(rest) // 12)][:12]
-                extra = rnd.sample(rest, min(6, len(rest)))
-                templates = single + base + [x for x in extra if x not in base]
+            ci = info.get(directive, dict(unit=1, align=1))
+            texts = rendering_texts(w, cpu, ci["unit"], ci["align"])
+            corp = templates_of(cpu)
+            rend = templates_of(cpu, texts)[len(corp):]
+            s.count("templates.from_renderings", len(rend))
+            s.count("templates.from_corpus", len(corp))
+            if tier == "quick":
+                rend = rend[::12]                      # subset of the thorough tier's list
+                if len(corp) > 30:
+                    # one-operand forms first (branches, jumps, calls, pushes: the hole is the whole operand list), then a
+                    # deterministic spread over the rest and a seeded extra sample
+                    single = [x for x in corp if not x[2] and "," not in x[0]]
+                    single = single[::max(1, len(single) // 12)][:12]
+                    rest = [x for x in corp if x not in single]
+                    base = rest[::max(1, len(rest) // 12)][:12]
+                    extra = rnd.sample(rest, min(6, len(rest)))
+                    corp = single + base + [x for x in extra if x not in base]
+            templates = corp + rend
             for t, span, is_reg, key in templates:
                 try:
                     res = check_template(w, s, cpu, directive, unit, t, span, is_reg)
@@ -251,7 +321,8 @@ def replay(payload):
         if "text" not in payload:
             # known-finding examples carry (cpu, key): find the template again
             found = None
-            for t, span, is_reg, key in templates_of(cpu):
+            ci_ = {c["name"]: c for c in w.cpus()}.get(directive, dict(unit=1, align=1))
+            for t, span, is_reg, key in templates_of(cpu, rendering_texts(w, cpu, ci_["unit"], ci_["align"])):
                 if key == payload["key"]:
                     found = (t, span, is_reg)
                     break
